@@ -5,6 +5,7 @@ from .isomsg import *
 from .decode import *
 
 PROPERTY = 'C08'
+DEBUG_LOG = ['single/latin_1/bin']      # obligations that are also explored with debug logging switched on
 PYTHON_O = ['single/latin_1/bin', 'pds-carrier/DE48']      # obligations that are also explored with the modules compiled as under python -O
 ASSUMPTIONS = [
     'incoming message = concrete MTI + concrete bitmap from a family (every single configured element, pairs, triples) + opaque data bytes of '
